@@ -60,7 +60,7 @@ pub struct GatherPlan {
 
 const BOUNDS: [f64; 2] = [4.0, 64.0];
 
-fn gen_plan(seed: u64, mixed_kinds: bool) -> GatherPlan {
+pub fn gen_plan(seed: u64, mixed_kinds: bool) -> GatherPlan {
     let mut r = Rng::new(seed, 1);
     let names = ["req_total", "a_metric", "zeta", "mid:one", "b2"];
     let n = 2 + r.below(5) as usize;
@@ -280,6 +280,7 @@ fn register(reg: &Registry, b: &Built) -> std::result::Result<(), String> {
 #[derive(Clone, Debug)]
 pub struct Replica {
     pub fams: Vec<PFamily>,
+    pub typed: String,
     pub text: String,
     pub concurrent: Option<Vec<PFamily>>,
     pub errors: Vec<String>,
@@ -326,9 +327,10 @@ pub fn run_replicas(plan: &GatherPlan, mode: Mode) -> (crate::engine::RunResult,
             let concurrent = if plan.concurrent_gather && k == 0 { Some(compat::families_of(&reg.gather())) } else { None };
             let mfs = reg.gather();
             let fams = compat::families_of(&mfs);
+            let typed = compat::typed_dump(&mfs);
             let text = crate::seams::catch(|| TextEncoder::new().encode_to_string(&mfs).unwrap_or_else(|e| format!("<encode error: {}>", e))).unwrap_or_else(|p| format!("<encode panic: {}>", p));
             ctx.ret(op_id(k, 0));
-            outp.lock().unwrap()[k] = Some(Replica { fams, text, concurrent, errors });
+            outp.lock().unwrap()[k] = Some(Replica { fams, typed, text, concurrent, errors });
             keep.push(built);
             keep.push(reg);
         });
@@ -453,7 +455,7 @@ fn execute_c07(plan: &GatherPlan, mode: Mode) -> RunOut {
     out
 }
 
-fn shrink_gather(plan: &Value) -> Vec<Value> {
+pub fn shrink_gather(plan: &Value) -> Vec<Value> {
     let p: GatherPlan = serde_json::from_value(plan.clone()).unwrap();
     let mut c = vec![];
     for i in 0..p.metrics.len() {
